@@ -1,14 +1,25 @@
 package lib
 
+import "sync"
+
 // BFSConfig drives an explicit-state breadth-first search over operation histories of a real component.
 // A state is the history reaching it; successors are built by replaying history+op on a fresh instance (Canon does
 // that); two histories are merged only when Canon returns the same key.
+//
+// With Workers > 1 the callbacks of one level run concurrently (each builds its own instance); successors are merged
+// in the canonical (frontier order x alphabet order) sequence, so the set of states, the representative history of
+// every state and all counters are identical to a sequential run.
 type BFSConfig[Op any] struct {
 	Alphabet  func(h []Op) []Op   // enabled operations in the state reached by h, simplest first
 	Canon     func(h []Op) string // build fresh instance, replay h, dump canonical state ("" = prune: invalid history)
 	Visit     func(h []Op)        // invariant / observer battery, evaluated once per distinct state
 	MaxDepth  int                 // 0 = unbounded (fixed point)
 	MaxStates int
+	Workers   int
+	// Guided deepening: states first reached at depth MaxDepth for which Deepen returns true are explored for
+	// ExtraDepth more levels (all their successors, de-duplicated as usual).
+	Deepen     func(h []Op) bool
+	ExtraDepth int
 }
 
 type BFSResult[Op any] struct {
@@ -17,53 +28,115 @@ type BFSResult[Op any] struct {
 	Keys                       map[string]struct{}
 	Deepest                    []Op
 	DeepestKey                 string
+	DeepenedRoots              int // states selected by Deepen at depth MaxDepth
+	StatesBeyondMaxDepth       int
+}
+
+func parallelDo(workers, n int, f func(i int)) {
+	if workers <= 1 || n <= 1 {
+		for i := 0; i < n; i++ {
+			f(i)
+		}
+		return
+	}
+	var wg sync.WaitGroup
+	next := make(chan int)
+	for w := 0; w < workers; w++ {
+		wg.Add(1)
+		go func() {
+			defer wg.Done()
+			for i := range next {
+				f(i)
+			}
+		}()
+	}
+	for i := 0; i < n; i++ {
+		next <- i
+	}
+	close(next)
+	wg.Wait()
 }
 
 func BFS[Op any](c BFSConfig[Op]) BFSResult[Op] {
 	res := BFSResult[Op]{Keys: map[string]struct{}{}, FixedPoint: true}
-	type node struct{ h []Op }
 	k0 := c.Canon(nil)
 	res.Keys[k0] = struct{}{}
 	res.States = 1
 	if c.Visit != nil {
 		c.Visit(nil)
 	}
-	frontier := []node{{nil}}
+	frontier := [][]Op{nil}
 	depth := 0
+	limit := c.MaxDepth
 	for len(frontier) > 0 {
-		if c.MaxDepth > 0 && depth >= c.MaxDepth {
+		if c.MaxDepth > 0 && depth >= limit {
 			res.FixedPoint = false
 			break
 		}
-		var next []node
-		for _, n := range frontier {
-			for _, op := range c.Alphabet(n.h) {
-				h := append(append(make([]Op, 0, len(n.h)+1), n.h...), op)
-				k := c.Canon(h)
-				if k == "" {
-					continue
-				}
-				res.Transitions++
-				if _, seen := res.Keys[k]; seen {
-					continue
-				}
-				res.Keys[k] = struct{}{}
-				res.States++
-				res.Deepest, res.DeepestKey = h, k
-				if c.Visit != nil {
-					c.Visit(h)
-				}
-				next = append(next, node{h})
-				if c.MaxStates > 0 && res.States >= c.MaxStates {
-					res.FixedPoint = false
-					res.Depth = depth + 1
-					return res
+		if c.MaxDepth > 0 && depth == c.MaxDepth {
+			// guided deepening: keep only the selected frontier states
+			var sel [][]Op
+			for _, h := range frontier {
+				if c.Deepen(h) {
+					sel = append(sel, h)
 				}
 			}
+			frontier = sel
+			res.DeepenedRoots = len(sel)
+			if len(sel) == 0 {
+				break
+			}
+		}
+		// 1. enabled operations of every frontier state
+		alph := make([][]Op, len(frontier))
+		parallelDo(c.Workers, len(frontier), func(i int) { alph[i] = c.Alphabet(frontier[i]) })
+		// 2. successors
+		var succ [][]Op
+		for i, h := range frontier {
+			for _, op := range alph[i] {
+				succ = append(succ, append(append(make([]Op, 0, len(h)+1), h...), op))
+			}
+		}
+		keys := make([]string, len(succ))
+		parallelDo(c.Workers, len(succ), func(i int) { keys[i] = c.Canon(succ[i]) })
+		// 3. merge in canonical order
+		var next [][]Op
+		full := false
+		for i, k := range keys {
+			if k == "" {
+				continue
+			}
+			res.Transitions++
+			if _, seen := res.Keys[k]; seen {
+				continue
+			}
+			res.Keys[k] = struct{}{}
+			res.States++
+			if c.MaxDepth > 0 && depth >= c.MaxDepth {
+				res.StatesBeyondMaxDepth++
+			}
+			res.Deepest, res.DeepestKey = succ[i], k
+			next = append(next, succ[i])
+			if c.MaxStates > 0 && res.States >= c.MaxStates {
+				full = true
+				break
+			}
+		}
+		// 4. observers on the new states
+		if c.Visit != nil {
+			parallelDo(c.Workers, len(next), func(i int) { c.Visit(next[i]) })
+		}
+		if full {
+			res.FixedPoint = false
+			res.Depth = depth + 1
+			return res
 		}
 		frontier = next
 		if len(next) > 0 {
 			depth++
+		}
+		if c.MaxDepth > 0 && depth == c.MaxDepth && c.Deepen != nil && c.ExtraDepth > 0 {
+			limit = c.MaxDepth + c.ExtraDepth
 		}
 	}
 	res.Depth = depth
